@@ -320,3 +320,35 @@ def resolve_ite(x: Rat, st: State) -> Rat:
             return x
         x = x.subs(mp)
     return x
+
+
+def split_minmax(x: Rat, st: State, limit: int = 8):
+    """min(a, b) / max(a, b) atoms are replaced by each of their arguments that the path's assumptions allow:
+    -> [(expression without such atoms, [description of the case, ...])]"""
+    out = [(x, [])]
+    for _ in range(4):
+        nxt, changed = [], False
+        for e, why in out:
+            hit = None
+            for a in e.all_atoms():
+                df = sym.ATOM_DEF.get(a)
+                if df and df[0] == "call" and df[1] in ("min", "max") and len(df[2]) == 2 and all(isinstance(v, Rat) for v in df[2]):
+                    hit = (a, df[1], df[2][0], df[2][1])
+                    break
+            if hit is None:
+                nxt.append((e, why))
+                continue
+            changed = True
+            a, fn, u, v = hit
+            sg = st.sign_of(u - v)
+            # min picks u when u <= v ; max picks u when u >= v
+            pick_u = ("-" in sg or "0" in sg) if fn == "min" else ("+" in sg or "0" in sg)
+            pick_v = ("+" in sg or "0" in sg) if fn == "min" else ("-" in sg or "0" in sg)
+            if pick_u:
+                nxt.append((e.subs({a: u}), why + [f"{fn} takes {u.key()[:40]}"]))
+            if pick_v:
+                nxt.append((e.subs({a: v}), why + [f"{fn} takes {v.key()[:40]}"]))
+        out = nxt[:limit]
+        if not changed:
+            break
+    return out
